@@ -617,4 +617,151 @@ theorem ciftiSave_bound (env : Env) (dt : DtReq) (fault : Fault) (w : World) :
   simp only []
   split <;> rfl
 
+/-! ### saving an image and saving its harmonised copy are indistinguishable -/
+
+/-- what a caller can observe of a save besides the image: result, abstract bytes, I/O trace, binding -/
+def Res.obs (r : Res) : Option Err × List Chunk × List IoCall × Nat × Bool :=
+  (r.1, r.2.out, r.2.log, r.2.calls, r.2.bound)
+
+theorem analyzeSave_harm (t : Gen.Traits) (env : Env) (dt : DtReq) (fault : Fault) (w : World) :
+    analyzeSave t env dt fault { w with img := harmonise w.img } = analyzeSave t env dt fault w := rfl
+
+theorem spmSave_harm (t : Gen.Traits) (env : Env) (dt : DtReq) (fault : Fault) (w : World) :
+    spmSave t env dt fault { w with img := harmonise w.img } = spmSave t env dt fault w := rfl
+
+theorem mghSave_harm (t : Gen.Traits) (env : Env) (dt : DtReq) (fault : Fault) (w : World) :
+    (mghSave t env dt fault { w with img := harmonise w.img }).obs = (mghSave t env dt fault w).obs := by
+  unfold mghSave
+  split
+  · rfl
+  · rfl
+
+theorem ciftiSave_harm (env : Env) (dt : DtReq) (fault : Fault) (w : World) :
+    ciftiSave env dt fault { w with img := harmonise w.img } = ciftiSave env dt fault w := rfl
+
+theorem niftiSave_harm (t : Gen.Traits) (env : Env) (dt : DtReq) (fault : Fault) (w : World) :
+    (niftiSave t env dt fault { w with img := harmonise w.img }).obs = (niftiSave t env dt fault w).obs := by
+  unfold niftiSave niftiSaveWith
+  simp only []
+  cases ha : w.img.alias with
+  | none =>
+      have : (harmonise w.img).alias = none := ha
+      simp only [this]
+      rfl
+  | some a =>
+      have : (harmonise w.img).alias = some a := ha
+      simp only [this]
+      split
+      · rfl
+      · split
+        · rfl
+        · rfl
+
+theorem saveWorld_harm (cls : Cls) (env : Env) (dt : DtReq) (fault : Fault) (k : Core) :
+    (saveWorld cls env dt fault { img := harmonise k }).obs = (saveWorld cls env dt fault { img := k }).obs := by
+  cases cls <;> simp only [saveWorld]
+  · exact congrArg Res.obs (analyzeSave_harm _ env dt fault { img := k })
+  · exact congrArg Res.obs (spmSave_harm _ env dt fault { img := k })
+  · exact congrArg Res.obs (spmSave_harm _ env dt fault { img := k })
+  · exact niftiSave_harm _ env dt fault { img := k }
+  · exact niftiSave_harm _ env dt fault { img := k }
+  · exact niftiSave_harm _ env dt fault { img := k }
+  · exact niftiSave_harm _ env dt fault { img := k }
+  · exact mghSave_harm _ env dt fault { img := k }
+  · exact congrArg Res.obs (ciftiSave_harm env dt fault { img := k })
+/-! ### 4x4 integer matrices -/
+
+theorem M4.mul_assoc (a b c : M4) : (a.mul b).mul c = a.mul (b.mul c) := by
+  obtain ⟨⟨a00,a01,a02,a03⟩,⟨a10,a11,a12,a13⟩,⟨a20,a21,a22,a23⟩,⟨a30,a31,a32,a33⟩⟩ := a
+  obtain ⟨⟨b00,b01,b02,b03⟩,⟨b10,b11,b12,b13⟩,⟨b20,b21,b22,b23⟩,⟨b30,b31,b32,b33⟩⟩ := b
+  obtain ⟨⟨c00,c01,c02,c03⟩,⟨c10,c11,c12,c13⟩,⟨c20,c21,c22,c23⟩,⟨c30,c31,c32,c33⟩⟩ := c
+  simp only [M4.mul, V4.mulM, V4.add, V4.smul, M4.mk.injEq, V4.mk.injEq]
+  refine ⟨⟨?_, ?_, ?_, ?_⟩, ⟨?_, ?_, ?_, ?_⟩, ⟨?_, ?_, ?_, ?_⟩, ⟨?_, ?_, ?_, ?_⟩⟩ <;> grind
+
+theorem from111_to111 (m : M4) : (m.mul from111).mul to111 = m := by
+  obtain ⟨⟨a00,a01,a02,a03⟩,⟨a10,a11,a12,a13⟩,⟨a20,a21,a22,a23⟩,⟨a30,a31,a32,a33⟩⟩ := m
+  simp only [M4.mul, V4.mulM, V4.add, V4.smul, from111, to111, shift4, Gen.from111Shift, Gen.to111Shift,
+    M4.mk.injEq, V4.mk.injEq]
+  refine ⟨⟨?_, ?_, ?_, ?_⟩, ⟨?_, ?_, ?_, ?_⟩, ⟨?_, ?_, ?_, ?_⟩, ⟨?_, ?_, ?_, ?_⟩⟩ <;> omega
+
+theorem xflip_xflip (m : M4) : xflipR.mul (xflipM.mul m) = m := by
+  obtain ⟨⟨a00,a01,a02,a03⟩,⟨a10,a11,a12,a13⟩,⟨a20,a21,a22,a23⟩,⟨a30,a31,a32,a33⟩⟩ := m
+  simp only [M4.mul, V4.mulM, V4.add, V4.smul, xflipM, xflipR, diag4, Gen.xflipDiagW, Gen.xflipDiagR,
+    List.getD_cons_zero, List.getD_cons_succ, M4.mk.injEq, V4.mk.injEq]
+  refine ⟨⟨?_, ?_, ?_, ?_⟩, ⟨?_, ?_, ?_, ?_⟩, ⟨?_, ?_, ?_, ?_⟩, ⟨?_, ?_, ?_, ?_⟩⟩ <;> omega
+
+/-! ### the abstract output only grows; the `.mat` chunk of an SPM save -/
+
+theorem exec_out_mono (c : Ctx) (s : Step) (w : World) (x : Chunk) (h : x ∈ w.out) : x ∈ (exec c s w).2.out := by
+  cases s with
+  | mkWriter => simp only [exec]; split <;> exact h
+  | setSlopeInter => simp only [exec]; split <;> (try split) <;> exact h
+  | chooseOffset =>
+      simp only [exec]; split
+      · split
+        · exact h
+        · split <;> exact h
+      · exact h
+  | ios cs => simp only [exec]; rw [stat_out (ioMany_keeps c.fault cs w.stat w rfl)]; exact h
+  | seekTell f w0 => simp only [exec]; rw [stat_out (seekTell_keeps c.fault f w0 w.stat w rfl)]; exact h
+  | emitHdr f => exact List.mem_cons_of_mem _ h
+  | emitData f => exact List.mem_cons_of_mem _ h
+  | emitMat a => exact List.mem_cons_of_mem _ h
+  | emitTrailer f => exact List.mem_cons_of_mem _ h
+  | openW f => simp only [exec]; split <;> exact h
+  | bindHeader => exact h
+  | bindFileMap => exact h
+
+theorem runSteps_out_mono (c : Ctx) (ss : List Step) (w : World) (x : Chunk) (h : x ∈ w.out) :
+    x ∈ (runSteps c ss w).2.out := by
+  induction ss generalizing w with
+  | nil => exact h
+  | cons s ss ih =>
+      unfold runSteps
+      exact andThen_inv (P := fun w => x ∈ w.out) (exec_out_mono c s w x h) (fun w hw => ih w hw)
+
+/-- a `with … as mfobj:` block around `matBody` that completes has written the `.mat` chunk computed from
+    the image as it was on entry -/
+theorem withOpened_mat (c : Ctx) (env : Env) (a : M4) (w : World) (hl : w.live = none)
+    (hok : (withOpened c .mat (matBody env a) w).1 = none) :
+    Chunk.mat (spmM w.img.xflip a) (spmMat a) ∈ (withOpened c .mat (matBody env a) w).2.out := by
+  unfold withOpened at hok ⊢
+  split at hok
+  · rename_i w1 h1
+    have hil := runSteps_keeps_il c (prepare c.env .mat) w (prepare_keeps c.env .mat) hl
+    rw [h1] at hil
+    have hw1 : w1.img = w.img := congrArg Prod.fst hil
+    simp only []
+    apply runSteps_out_mono
+    simp only [matBody, runSteps, exec, Res.andThen]
+    apply runSteps_out_mono (x := Chunk.mat (spmM w.img.xflip a) (spmMat a)) c [.ios _]
+    rw [hw1]
+    exact List.mem_cons_self
+  · rename_i r hne
+    rcases hr : runSteps c (prepare c.env File.mat) w with ⟨e, w1⟩
+    rw [hr] at hok
+    cases e with
+    | none => exact absurd hr (hne w1)
+    | some e => simp at hok
+
+theorem spmSave_mat (t : Gen.Traits) (env : Env) (dt : DtReq) (fault : Fault) (w : World) (a : M4)
+    (hrt : rtCode t w.img.hdr.dtype = w.img.hdr.dtype) (ha : w.img.affine = some a)
+    (hok : (spmSave t env dt fault w).1 = none) :
+    Chunk.mat (spmM w.img.xflip a) (spmMat a) ∈ (spmSave t env dt fault w).2.out := by
+  unfold spmSave spmSaveWith at hok ⊢
+  have hi := analyzeSave_img t env dt fault w hrt
+  have hl := analyzeSave_live t env dt fault w
+  rcases hr : analyzeSave t env dt fault w with ⟨e, w1⟩
+  rw [hr] at hok hi hl
+  cases e with
+  | some e => simp at hok
+  | none =>
+      simp only [] at hok hi hl
+      have ha1 : w1.img.affine = some a := by rw [hi]; exact ha
+      have hx : w1.img.xflip = w.img.xflip := by rw [hi]; rfl
+      simp only [ha1] at hok
+      simp only [ha1]
+      rw [← hx]
+      exact withOpened_mat _ env a w1 hl hok
+
 end Nb.C07
